@@ -416,7 +416,7 @@ theorem findOnDevice_some {aG : List Group} {needed : List String} {gb ga : Grou
   unfold findOnDevice at h
   have hm := List.mem_of_find?_eq_some h
   have hp := List.find?_some h
-  rw [List.mem_mergeSort] at hm
+  rw [(isort_perm _ _).mem_iff] at hm
   simp only [Bool.and_eq_true, Bool.not_eq_eq_eq_not, Bool.not_true, beq_iff_eq] at hp
   refine ⟨hm, ?_, hp.2⟩
   intro hc
